@@ -323,5 +323,10 @@ FIXED_LOG = [
  "fixed: property=C13 e1a8e18 a comment with an odd number of quotes left all STRING<<>> placeholders of the bundle unreplaced (10 HDRAW\"\":REM \")",
  "fixed: property=C08 ee8d520 with CR or CRLF line ends a REM swallowed all following lines, and unquoted DATA items / open string literals ran across line ends (10 REM HELLO\r20 CLS)",
  "fixed: property=C08 a19f5d7 a trailing NUL after a final REM / unquoted DATA item / open string literal was copied into the output (10 REM HELLO\x00)",
+ "fixed: property=C05 3a8d956 the WIDTH operand was never visited ('10 WIDTH INT(A)' gave 'run _ecb_width(, display)')",
+ "fixed: property=C04 ea49ec4 the optional operand of CLS / HSCREEN / HCLS was dropped when it started with a unary minus or NOT (10 CLS -A)",
+ "fixed: property=C15 ebeb205 a hex DATA item in a program with an empty DATA item raised AttributeError (10 READ A / 20 DATA ,&HFF)",
+ "fixed: property=C15 4836963 procedure names with '-' (and names that only match PROCNAME_REGEX as a prefix) raised UnboundLocalError (procname='my-prog')",
+ "fixed: property=C10 5dd1bab implicit string arrays never got the requested string size (10 A$(1)=\"X\" with default_str_storage=100)",
  "fixed: property=C20 7a287a6 ecb_instr never assigned its result (wrong substring length, loop one short, no 0 for no match)"
 ]
